@@ -120,11 +120,21 @@ def units(tier):
         out.append({'fam': 'raw', 'depth': d, 'shard': [sh, n], 'tier': tier})
     for part in spaces.shard(list(range(len(inn))), 8):
         out.append({'fam': 'many', 'inners': part, 'tier': tier})
+    out.append({'fam': 'sources', 'tier': tier})
     return out
 
 
 def cases(unit):
     fam = unit['fam']
+    if fam == 'sources':
+        # two sources multiplexed onto ONE store (with_store(store, sources=[...])): each source runs its own stateful pipeline
+        pipes = [[['count']], [['scan', 'add', '0']], [['last']], [['to_list']], [['distinct']], [['take', 2]], [['lag', 1]], [['first']],
+                 [['group_by', 'mod2', [['count', True]]]], [['roll', 2, 1, [['to_list']]]]]
+        for a in range(len(pipes)):
+            for b in range(len(pipes)):
+                for order in spaces.interleavings([2, 3]):
+                    yield {'fam': 'sources', 'pa': pipes[a], 'pb': pipes[b], 'order': order}
+        return
     if fam == 'many':
         inn = inners(unit['tier'])
         for ii in unit['inners']:
@@ -207,8 +217,44 @@ def run_many(case, acc):
     return out
 
 
+def run_sources(case, acc):
+    import rx
+    import rxsci as rs
+    from rx.subject import Subject
+    from ..drivers import Sink, new_store
+    subjects = [Subject(), Subject()]
+    store = new_store()
+    muxed = rs.state.with_store(store, sources=[s.pipe(rs.ops.mux_observable()) for s in subjects])
+    specs = [case['pa'], case['pb']]
+    sinks = [Sink(), Sink()]
+    for k in (0, 1):
+        sinks[k].subscribe_to(muxed[k].pipe(*(opspecs.build(specs[k]) + [rs.ops.demux_observable()])))
+    items = [[1, 2], [2, 1, 2]]
+    pos = [0, 0]
+    for k in case['order']:
+        subjects[k].on_next(items[k][pos[k]])
+        pos[k] += 1
+    for k in (1, 0):
+        subjects[k].on_completed()
+    acc.evals += 1
+    acc.events += 7
+    acc.traces += 2
+    out = []
+    for k in (0, 1):
+        exp = harness.model_all(specs[k], items[k])
+        if sinks[k].error is not None or sinks[k].completed != 1 or sinks[k].items != exp:
+            out.append(viol('sources', specs[k], 'source-%d-output-%s' % (k + 1, harness.diff_kind(exp, sinks[k].items)),
+                            {'pipelines': specs, 'order': case['order'], 'expected': exp, 'observed': sinks[k].items, 'error': repr(sinks[k].error)}))
+            break
+    acc.count('two_sources_one_store')
+    acc.outcomes.add(fast_hash(repr((specs, case['order'], sinks[0].items, sinks[1].items))))
+    return out
+
+
 def run_case(case, acc):
     fam = case['fam']
+    if fam == 'sources':
+        return run_sources(case, acc)
     if fam == 'raw':
         return run_raw(case, acc)
     if fam == 'many':
